@@ -164,12 +164,21 @@ def strat_params(draw, tier):
     for _ in range(draw(st.integers(1, 8))):
         name = draw(st.sampled_from(sorted(VALID[fam])))
         if draw(st.integers(0, 4)) == 0 and name in INVALID[fam]:
-            ops.append(["set-invalid", name, INVALID[fam][name]])
+            # (a constrained parameter refuses its inadmissible values and NaN alike; "nan" is decoded in the body)
+            ops.append(["set-invalid", name, INVALID[fam][name] if draw(st.booleans()) else "nan"])
         else:
             lo, hi = VALID[fam][name]
             ops.append(["set", name, float(f"{lo + draw(st.floats(0, 1)) * (hi - lo):.6g}")])
         if draw(st.integers(0, 2)) == 0:
             ops.append(["init"])
+    # parameters may be given as integers at construction (the library's own defaults are: g=15, m=20) and updated with
+    # non-integer values later
+    if draw(st.integers(0, 3)) == 0:
+        for k_ in spec["params"]:
+            v = spec["params"][k_]
+            lo, hi = VALID[fam].get(k_, (None, None))
+            if lo is not None and abs(v) >= 1 and lo <= round(v) <= hi and k_ != "y":
+                spec["params"][k_] = int(round(v))
     return {"model": spec, "ops": ops, "u": [draw(_f(-4.0, 4.0)) for _ in range(3)]}
 
 
@@ -188,8 +197,9 @@ def body_params(case):
             final[op[1]] = op[2]
         else:
             old = getattr(params, op[1])
+            bad = float("nan") if op[2] == "nan" else op[2]
             try:
-                setattr(params, op[1], op[2])
+                setattr(params, op[1], bad)
             except ValueError:
                 if getattr(params, op[1]) != old:
                     out.append(Violation(f"C20/parameters/{fam}/rejected-assignment-changed-the-value", f"{op}; {detail}"))
@@ -213,8 +223,14 @@ def body_params(case):
     pr, pd_ = rebuilt.levy_model.parameters.__dict__, direct.levy_model.parameters.__dict__
     for k_ in pd_:
         a, b = pr.get(k_), pd_[k_]
-        if not (a == b or (isinstance(a, float) and isinstance(b, float) and math.isnan(a) and math.isnan(b))):
-            if not np.allclose(a, b, rtol=1e-14, atol=0, equal_nan=True):
+        try:  # (fields may be scalars or arrays)
+            same = a is not None and np.shape(a) == np.shape(b) and bool(np.allclose(np.asarray(a, dtype=float),
+                                                                                      np.asarray(b, dtype=float),
+                                                                                      rtol=1e-14, atol=0, equal_nan=True))
+        except (TypeError, ValueError):
+            same = a == b
+        if not same:
+            if True:
                 out.append(Violation(f"C20/parameters/{fam}/cached-field-out-of-sync/{k_}",
                                      f"after the updates {k_}={a!r}, direct construction {b!r}; {detail}"))
                 return out
